@@ -49,13 +49,6 @@ Proof.
   destruct (loop body i c (cur + 1) w1 fr2) as [[[[o2 w2] fr3] t2]| |]; try discriminate. contradiction.
 Qed.
 
-Ltac step H :=
-  match goal with
-  | |- nofuel (match ?x with _ => _ end) =>
-      let E := fresh "E" in
-      pose proof H as E; destruct x as [[[? ?] ?]| |] eqn:?; [| discriminate | exfalso; apply E; reflexivity]
-  end.
-
 Section Inner.
   (* hypotheses of the inner induction, discharged by the outer induction on call depth *)
   Variable p : prog.
@@ -160,4 +153,186 @@ Proof.
   assert ((need_f (length (funs p)) p f <= list_max (map (need_f (length (funs p)) p) (seq 0 (length (funs p)))))%nat).
   { apply list_max_ge. apply in_map. exact Hin. }
   lia.
+Qed.
+
+(* ------------------------------------------------------------------ static bound on the number of loop iterations *)
+Definition is_iter (e : eff) : bool := match e with Iter => true | _ => false end.
+Definition niter (t : list eff) : nat := length (filter is_iter t).
+Lemma niter_app a b : niter (a ++ b) = (niter a + niter b)%nat.
+Proof. unfold niter. rewrite filter_app, app_length. reflexivity. Qed.
+
+Fixpoint ib_e (cf : nat -> nat) (e : expr) : nat :=
+  match e with
+  | EBin a b => (ib_e cf a + ib_e cf b)%nat
+  | ECall f a => (ib_e cf a + cf f)%nat
+  | EExtCall _ _ a | EBuiltin _ a => ib_e cf a
+  | _ => 0%nat
+  end.
+Fixpoint ib_s (cf : nat -> nat) (s : stmt) : nat :=
+  match s with
+  | SSkip => 0%nat
+  | SSeq s t => (ib_s cf s + ib_s cf t)%nat
+  | SAssign _ _ e | SAug _ _ e | SExpr e | SLog e | SReturn e => ib_e cf e
+  | SIf c s t => (ib_e cf c + (ib_s cf s + ib_s cf t))%nat
+  | SFor _ (RLit n) b => (Z.to_nat n * S (ib_s cf b))%nat
+  | SFor _ (RBound e K) b => (ib_e cf e + Z.to_nat K * S (ib_s cf b))%nat
+  | SFor _ (RExpr e) b => 0%nat            (* no static bound: rejected by check *)
+  | SForList _ _ _ len b => (len * S (ib_s cf b))%nat
+  end.
+Fixpoint ib_f (k : nat) (p : prog) (f : nat) : nat :=
+  match k with
+  | O => 0%nat
+  | S k' => match nth_error (funs p) f with
+            | Some g => ib_s (ib_f k' p) (fbody g)
+            | None => 0%nat
+            end
+  end.
+
+Fixpoint bounded_loops (s : stmt) : bool :=
+  match s with
+  | SSeq s t | SIf _ s t => bounded_loops s && bounded_loops t
+  | SFor _ (RExpr _) _ => false
+  | SFor _ _ b | SForList _ _ _ _ b => bounded_loops b
+  | _ => true
+  end.
+Lemma chk_bounded p c s : forall L, chk_stmt p c L s = true -> bounded_loops s = true.
+Proof.
+  induction s; cbn; intros L H; auto; repeat (apply andb_prop in H; destruct H as [H ?]); eauto.
+  - rewrite (IHs1 L), (IHs2 L); auto.
+  - rewrite (IHs1 L), (IHs2 L); auto.
+  - destruct r; cbn in H; try discriminate; eauto.
+Qed.
+
+Lemma niter_iter_cons t : niter (Iter :: t) = S (niter t). Proof. reflexivity. Qed.
+Lemma niter_cons_other e t : is_iter e = false -> niter (e :: t) = niter t.
+Proof. unfold niter. cbn. intros ->. reflexivity. Qed.
+Lemma niter_nil : niter [] = 0%nat. Proof. reflexivity. Qed.
+Ltac nit := repeat (rewrite niter_app || rewrite niter_nil || (rewrite niter_cons_other by reflexivity)); try lia.
+
+Lemma loop_iters body i cnt B :
+  (forall w fr o w' fr' t, body w fr = Done (o, w', fr', t) -> (niter t <= B)%nat) ->
+  forall cur w fr o w' fr' t, loop body i cnt cur w fr = Done (o, w', fr', t) -> (niter t <= cnt * S B)%nat.
+Proof.
+  intros Hb. induction cnt as [|c IH]; intros cur w fr o w' fr' t H; cbn in H.
+  - inversion H; subst. cbn. lia.
+  - destruct (body w _) as [[[[o1 w1] fr2] t1]| |] eqn:E; try discriminate.
+    pose proof (Hb _ _ _ _ _ _ E) as B1.
+    destruct o1.
+    + destruct (loop body i c (cur + 1) w1 fr2) as [[[[o2 w2] fr3] t2]| |] eqn:E2; try discriminate.
+      inversion H; subst. pose proof (IH _ _ _ _ _ _ _ E2) as B2.
+      rewrite niter_iter_cons, niter_app. lia.
+    + inversion H; subst. rewrite niter_iter_cons. lia.
+Qed.
+
+Section InnerIters.
+  Variable p : prog.
+  Variable k : nat.
+  Hypothesis HF : forall f g n w fr o w' fr' t, calls_ok k p f = true -> nth_error (funs p) f = Some g ->
+    exec n p w fr (fbody g) = Done (o, w', fr', t) -> (niter t <= ib_f k p f)%nat.
+
+  Lemma inner_iters : forall n,
+    (forall e w fr v w' t, forallb (calls_ok k p) (callees_e e) = true ->
+        eval n p w fr e = Done (v, w', t) -> (niter t <= ib_e (ib_f k p) e)%nat) /\
+    (forall s w fr o w' fr' t, forallb (calls_ok k p) (callees_s s) = true -> bounded_loops s = true ->
+        exec n p w fr s = Done (o, w', fr', t) -> (niter t <= ib_s (ib_f k p) s)%nat).
+  Proof.
+    induction n as [|n [IHe IHs]]; [split; intros; discriminate|]. split.
+    - intros e w fr v w' t Hc H. destruct e; cbn in Hc, H; cbn [ib_e].
+      + inversion H; subst. cbn. lia.
+      + inversion H; subst. destruct (is_state k0); cbn; lia.
+      + inversion H; subst. cbn. lia.
+      + inversion H; subst. cbn. lia.
+      + inversion H; subst. cbn. lia.
+      + rewrite forallb_app in Hc. apply andb_prop in Hc. destruct Hc as [Ca Cb].
+        destruct (eval n p w fr e1) as [[[va w1] t1]| |] eqn:E1; try discriminate.
+        destruct (eval n p w1 fr e2) as [[[vb w2] t2]| |] eqn:E2; try discriminate.
+        inversion H; subst. rewrite niter_app.
+        pose proof (IHe _ _ _ _ _ _ Ca E1). pose proof (IHe _ _ _ _ _ _ Cb E2). lia.
+      + apply andb_prop in Hc. destruct Hc as [Cf Ca].
+        destruct (eval n p w fr e) as [[[va w1] t1]| |] eqn:E1; try discriminate.
+        destruct (nth_error (funs p) f) as [g|] eqn:Eg; [|discriminate].
+        destruct (exec n p w1 _ (fbody g)) as [[[[o w2] fr2] t2]| |] eqn:E2; try discriminate.
+        inversion H; subst. rewrite niter_app.
+        pose proof (IHe _ _ _ _ _ _ Ca E1). pose proof (HF _ _ _ _ _ _ _ _ _ Cf Eg E2). lia.
+      + destruct (eval n p w fr e) as [[[va w1] t1]| |] eqn:E1; try discriminate.
+        pose proof (IHe _ _ _ _ _ _ Hc E1).
+        destruct k0.
+        * destruct (ext_mod w1 (sto w1) va). inversion H; subst. rewrite niter_app. cbn. lia.
+        * destruct m; inversion H; subst; rewrite ?niter_app; cbn; lia.
+      + destruct (eval n p w fr e) as [[[va w1] t1]| |] eqn:E1; try discriminate.
+        pose proof (IHe _ _ _ _ _ _ Hc E1).
+        destruct m; try (destruct (ext_mod w1 (sto w1) va)); inversion H; subst; rewrite ?niter_app; cbn; lia.
+    - intros s w fr o w' fr' t Hc Hb H. destruct s; cbn in Hc, Hb, H; cbn [ib_s].
+      + inversion H; subst. cbn. lia.
+      + rewrite forallb_app in Hc. apply andb_prop in Hc. destruct Hc as [Ca Cb]. apply andb_prop in Hb. destruct Hb as [Ba Bb].
+        destruct (exec n p w fr s1) as [[[[o1 w1] fr1] t1]| |] eqn:E1; try discriminate.
+        pose proof (IHs _ _ _ _ _ _ _ Ca Ba E1).
+        destruct o1.
+        * destruct (exec n p w1 fr1 s2) as [[[[o2 w2] fr2] t2]| |] eqn:E2; try discriminate.
+          inversion H; subst. rewrite niter_app. pose proof (IHs _ _ _ _ _ _ _ Cb Bb E2). lia.
+        * inversion H; subst. lia.
+      + destruct (eval n p w fr e) as [[[va w1] t1]| |] eqn:E1; try discriminate.
+        pose proof (IHe _ _ _ _ _ _ Hc E1).
+        destruct k0; cbn in H; inversion H; subst; nit.
+      + destruct (eval n p w fr e) as [[[va w1] t1]| |] eqn:E1; try discriminate.
+        pose proof (IHe _ _ _ _ _ _ Hc E1).
+        destruct k0; cbn in H; inversion H; subst; nit.
+      + destruct (eval n p w fr e) as [[[va w1] t1]| |] eqn:E1; try discriminate.
+        pose proof (IHe _ _ _ _ _ _ Hc E1). inversion H; subst. lia.
+      + destruct (eval n p w fr e) as [[[va w1] t1]| |] eqn:E1; try discriminate.
+        pose proof (IHe _ _ _ _ _ _ Hc E1). inversion H; subst. rewrite niter_app. cbn. lia.
+      + rewrite !forallb_app in Hc. apply andb_prop in Hc. destruct Hc as [Cc Hc]. apply andb_prop in Hc. destruct Hc as [Ca Cb].
+        apply andb_prop in Hb. destruct Hb as [Ba Bb].
+        destruct (eval n p w fr c) as [[[v w1] t1]| |] eqn:E1; try discriminate.
+        destruct (exec n p w1 fr (if v =? 0 then s2 else s1)) as [[[[o2 w2] fr2] t2]| |] eqn:E2; try discriminate.
+        inversion H; subst. rewrite niter_app. pose proof (IHe _ _ _ _ _ _ Cc E1).
+        destruct (v =? 0); [pose proof (IHs _ _ _ _ _ _ _ Cb Bb E2) | pose proof (IHs _ _ _ _ _ _ _ Ca Ba E2)]; lia.
+      + rewrite forallb_app in Hc. apply andb_prop in Hc. destruct Hc as [Cr Cb].
+        destruct r; try discriminate.
+        * assert (Hbody : forall w fr o w' fr' t, (fun w' fr' => exec n p w' fr' s) w fr = Done (o, w', fr', t) ->
+                     (niter t <= ib_s (ib_f k p) s)%nat) by (intros ? ? ? ? ? ? H0; cbv beta in H0; eapply IHs; eauto).
+          eapply loop_iters; eauto.
+        * assert (Hbody : forall w fr o w' fr' t, (fun w' fr' => exec n p w' fr' s) w fr = Done (o, w', fr', t) ->
+                     (niter t <= ib_s (ib_f k p) s)%nat) by (intros ? ? ? ? ? ? H0; cbv beta in H0; eapply IHs; eauto).
+          cbn in Cr.
+          destruct (eval n p w fr e) as [[[v w1] t1]| |] eqn:E1; try discriminate.
+          destruct (K <? v) eqn:EK; [discriminate|].
+          destruct (loop _ i (Z.to_nat v) 0 w1 fr) as [[[[o2 w2] fr2] t2]| |] eqn:E2; try discriminate.
+          inversion H; subst. rewrite niter_app. pose proof (IHe _ _ _ _ _ _ Cr E1).
+          pose proof (loop_iters _ i (Z.to_nat v) _ Hbody _ _ _ _ _ _ _ E2).
+          assert ((Z.to_nat v <= Z.to_nat K)%nat) by lia.
+          assert ((Z.to_nat v * S (ib_s (ib_f k p) s) <= Z.to_nat K * S (ib_s (ib_f k p) s))%nat) by (apply Nat.mul_le_mono_r; lia).
+          lia.
+      + assert (Hbody : forall w fr o w' fr' t, (fun w' fr' => exec n p w' fr' s) w fr = Done (o, w', fr', t) ->
+                   (niter t <= ib_s (ib_f k p) s)%nat) by (intros ? ? ? ? ? ? H0; cbv beta in H0; eapply IHs; eauto).
+        destruct (loop _ i len 0 w fr) as [[[[o2 w2] fr2] t2]| |] eqn:E2; try discriminate.
+        inversion H; subst. rewrite niter_app.
+        pose proof (loop_iters _ i len _ Hbody _ _ _ _ _ _ _ E2).
+        destruct (is_state k0); cbn; lia.
+      + destruct (eval n p w fr e) as [[[va w1] t1]| |] eqn:E1; try discriminate.
+        pose proof (IHe _ _ _ _ _ _ Hc E1). inversion H; subst. lia.
+  Qed.
+End InnerIters.
+
+Lemma fn_iters p : (forall g, In g (funs p) -> fn_ok p g = true) ->
+  forall k f g n w fr o w' fr' t, calls_ok k p f = true -> nth_error (funs p) f = Some g ->
+    exec n p w fr (fbody g) = Done (o, w', fr', t) -> (niter t <= ib_f k p f)%nat.
+Proof.
+  intros Hall. induction k as [|k IH]; intros f g n w fr o w' fr' t Hc Hf H; [discriminate|].
+  cbn in Hc. cbn [ib_f]. rewrite Hf in *.
+  destruct (inner_iters p k IH n) as [_ Hs]. eapply Hs; eauto.
+  eapply chk_bounded. apply (Hall g). eapply nth_error_In; eauto.
+Qed.
+
+(* every run of a function of an accepted program performs at most `ib_f` loop iterations in total (including
+   those of the functions it calls): a number computed from the literal range ends / bounds / array lengths *)
+Theorem static_iteration_bound_lemma p : check p = true ->
+  forall f g n w fr o w' fr' t, nth_error (funs p) f = Some g ->
+    exec n p w fr (fbody g) = Done (o, w', fr', t) -> (niter t <= ib_f (length (funs p)) p f)%nat.
+Proof.
+  intros Hc f g n w fr o w' fr' t Hf H.
+  pose proof Hc as Hc2. unfold check in Hc2. apply andb_prop in Hc2. destruct Hc2 as [Hall Ha].
+  rewrite forallb_forall in Hall. unfold acyclic in Ha. rewrite forallb_forall in Ha.
+  assert (Hlt : (f < length (funs p))%nat) by (apply nth_error_Some; congruence).
+  eapply fn_iters; eauto. apply Ha. apply in_seq. lia.
 Qed.
